@@ -116,13 +116,13 @@ Ltac b_k43 :=
 Ltac b_known ::= b_k43.
 
 (* opt_item either consumes its marker (None) or hands it back untouched (Some) *)
-Lemma opt_item_core m own Lb b0 V s :
-  St (m :: own) Lb b0 V s ->
+Lemma opt_item_core m own Lb b0 V W s :
+  St [] (m :: own) Lb b0 V W s ->
   WB (opt_item inp R m)
      (fun r s' => (forall i, Valid s i -> Valid s' i) /\
                   match r with
-                  | None => St own Lb b0 V s' /\ m <= nev s'
-                  | Some m' => m' = m /\ St (m :: own) Lb b0 V s' /\ nev s <= nev s'
+                  | None => St [] own Lb b0 V W s' /\ m <= nev s'
+                  | Some m' => m' = m /\ St [] (m :: own) Lb b0 V W s' /\ nev s <= nev s'
                   end) s.
 Proof.
   intros HS.
